@@ -1,6 +1,7 @@
 package c19
 
 import (
+	"encoding/binary"
 	"io"
 	"os"
 	"path/filepath"
@@ -83,6 +84,29 @@ func TestRegress_EOFWithLastBytes(t *testing.T) {
 		}
 		if v := r.ReadUint8(); v != 7 || r.Err() != nil {
 			t.Fatalf("%T: exact-fit read with (n, io.EOF) = %d, Err %v", r.IBinaryReader(), v, r.Err())
+		}
+	}
+}
+
+// d24d712: negative 24-bit values
+func TestRegress_Int24(t *testing.T) {
+	for _, little := range []bool{false, true} {
+		var order binary.ByteOrder = binary.BigEndian
+		w := parse.NewBinaryWriter(nil)
+		if little {
+			order = binary.LittleEndian
+			w.ByteOrder = binary.LittleEndian
+		}
+		vals := []int32{-1, -8388608, -2, 8388607, 0, -65536}
+		for _, v := range vals {
+			w.WriteInt24(v)
+		}
+		r := parse.NewBinaryReaderBytes(w.Bytes())
+		r.ByteOrder = order
+		for _, v := range vals {
+			if got := r.ReadInt24(); got != v {
+				t.Errorf("%v: WriteInt24(%d) is read back as %d", order, v, got)
+			}
 		}
 	}
 }
